@@ -225,6 +225,13 @@ fn vf_legacy_push(db: &mut HashMap<Hash, Vec<LegacySpecificFilterType>>, k: Hash
     ensures forall|h: Hash| #[trigger] lb(final(db)@, h) == (if h == k { lb(old(db)@, h).push(e) } else { lb(old(db)@, h) })
 { unimplemented!() }
 
+// R10: db.entry(k).and_modify(|v| v.push(e1)).or_insert_with(|| vec![e2]) with both element expressions as written
+#[verifier::external_body]
+fn vf_legacy_push2(db: &mut HashMap<Hash, Vec<LegacySpecificFilterType>>, k: Hash, e1: LegacySpecificFilterType, e2: LegacySpecificFilterType)
+    ensures forall|h: Hash| #[trigger] lb(final(db)@, h) == (if h == k { if old(db)@.contains_key(k) { lb(old(db)@, h).push(e1) } else { seq![e2] } } else { lb(old(db)@, h) }),
+        final(db)@.contains_key(k), forall|h: Hash| h != k ==> (final(db)@.contains_key(h) <==> old(db)@.contains_key(h)),
+{ unimplemented!() }
+
 // R7: the Style / UnhideStyle entries derived from a procedural filter's JSON (they are not read back: the procedural bins
 // travel in their own wire fields): none of the four projections changes
 #[verifier::external_body]
@@ -575,41 +582,7 @@ impl LegacyHostnameRuleDb {
 //@ LOOP @LegacySpecificFilterType::UnhideStyle(
                 invariant from_state(db@, *v, 4, |h: Hash| false, 0, 0),
 //@ ENDLOOP
-//@ REPLACE R7
-    db.entry(*hash)
-                    .and_modify(|v| v.push(LegacySpecificFilterType::Hide(f.to_owned())))
-//@ UPTO
-    .or_insert_with(|| vec![LegacySpecificFilterType::Hide(f.to_owned())]);
-//@ WITH
-    vf_legacy_push(&mut db, *hash, LegacySpecificFilterType::Hide(f.to_owned()));
-//@ ENDREPLACE
-//@ REPLACE R7
-    db.entry(*hash)
-                    .and_modify(|v| v.push(LegacySpecificFilterType::Unhide(f.to_owned())))
-//@ UPTO
-    .or_insert_with(|| vec![LegacySpecificFilterType::Unhide(f.to_owned())]);
-//@ WITH
-    vf_legacy_push(&mut db, *hash, LegacySpecificFilterType::Unhide(f.to_owned()));
-//@ ENDREPLACE
-//@ REPLACE R7
-    db.entry(*hash)
-                    .and_modify(|v| v.push(LegacySpecificFilterType::ScriptInject(f.to_owned())))
-//@ UPTO
-    .or_insert_with(|| vec![LegacySpecificFilterType::ScriptInject(f.to_owned())]);
-//@ WITH
-    vf_legacy_push(&mut db, *hash, LegacySpecificFilterType::ScriptInject(f.to_owned()));
-//@ ENDREPLACE
-//@ REPLACE R7
-    db.entry(*hash)
-                    .and_modify(|v| {
-                        v.push(LegacySpecificFilterType::UnhideScriptInject(f.to_owned()))
-                    })
-//@ UPTO
-    vec![LegacySpecificFilterType::UnhideScriptInject(f.to_owned())]
-                    });
-//@ WITH
-    vf_legacy_push(&mut db, *hash, LegacySpecificFilterType::UnhideScriptInject(f.to_owned()));
-//@ ENDREPLACE
+//@ R10ENTRYPUSH vf_legacy_push2
 //@ REPLACE R7#1
     match serde_json::from_str::<ProceduralOrActionFilter>(f) {
 //@ UPTO
